@@ -77,6 +77,119 @@ var c01JSONConfigs = []string{
 	`{"ShowWarnFlag":1,"IgnoreFileVars":[{"File":"f0.lua","Vars":["a","b"]}],"IgnoreLocalNoUseVars":["_"],"IgnoreWildcardModules":["g*"],"IgnoreReadFiles":["x.lua"]}`,
 }
 
+// randJSONConfig draws a luahelper.json over all of its fields, each from a pool that includes the
+// values nothing validates (0, negative, huge, empty, regex metacharacters, missing members), and a
+// Lua file that uses what the configuration names.
+func randJSONConfig(r *rand.Rand, names []string) (string, string) {
+	ints := []int{-1, 0, 0, 1, 1, 2, 3, 99}
+	strs := []string{"", ".", "/", "x", "U", "_C", "a(b", "[", "*", "d1/", "../", "f0.lua", "hive", "g.*"}
+	pick := func() string { return strs[r.Intn(len(strs))] }
+	some := func(n int, f func() interface{}) []interface{} {
+		out := []interface{}{}
+		for i := r.Intn(n + 1); i > 0; i-- {
+			out = append(out, f())
+		}
+		return out
+	}
+	file := func() interface{} {
+		if len(names) > 0 && r.Intn(3) > 0 {
+			return names[r.Intn(len(names))]
+		}
+		return pick()
+	}
+	m := map[string]interface{}{}
+	opt := func(k string, v func() interface{}) {
+		if r.Intn(2) == 0 {
+			m[k] = v()
+		}
+	}
+	opt("BaseDir", func() interface{} { return []string{"./", "./", "", "d1/", "../", "/nonexistent"}[r.Intn(6)] })
+	opt("ShowWarnFlag", func() interface{} { return ints[r.Intn(len(ints))] })
+	opt("ReferMatchPathFlag", func() interface{} { return ints[r.Intn(len(ints))] })
+	opt("IgnoreFileNameVarFlag", func() interface{} { return ints[r.Intn(len(ints))] })
+	opt("ProtocolPreIngoreFlag", func() interface{} { return ints[r.Intn(len(ints))] })
+	opt("ProjectFiles", func() interface{} { return some(3, file) })
+	opt("IgnoreModules", func() interface{} { return some(2, func() interface{} { return pick() }) })
+	opt("IgnoreWildcardModules", func() interface{} { return some(2, func() interface{} { return pick() }) })
+	opt("IgnoreReadFiles", func() interface{} { return some(2, file) })
+	opt("IgnoreErrorTypes", func() interface{} { return some(4, func() interface{} { return []int{-1, 0, 1, 2, 4, 6, 18, 29, 30, 99}[r.Intn(10)] }) })
+	opt("OpenErrorTypes", func() interface{} { return some(5, func() interface{} { return 20 + r.Intn(12) }) })
+	opt("IgnoreFileOrFloder", func() interface{} { return some(2, file) })
+	opt("IgnoreFileErr", func() interface{} { return some(2, file) })
+	opt("IgnoreLocalNoUseVars", func() interface{} { return some(2, func() interface{} { return pick() }) })
+	opt("PathSeparator", func() interface{} { return []string{".", "/", "", "::", "\\"}[r.Intn(5)] })
+	opt("OtherDir", func() interface{} { return []string{"", "../d2", "d0", "/nonexistent", "./"}[r.Intn(5)] })
+	opt("IgnoreFileVars", func() interface{} {
+		return some(2, func() interface{} {
+			return map[string]interface{}{"File": file(), "Vars": some(2, func() interface{} { return pick() })}
+		})
+	})
+	opt("IgnoreFileErrTypes", func() interface{} {
+		return some(2, func() interface{} {
+			return map[string]interface{}{"File": file(), "Types": some(3, func() interface{} { return r.Intn(31) - 1 })}
+		})
+	})
+	var user strings.Builder
+	protos := []string{"c2s", "s2s", "", "x.y"}
+	opt("ProtocolVars", func() interface{} {
+		return some(2, func() interface{} {
+			p := protos[r.Intn(len(protos))]
+			fmt.Fprintf(&user, "%s.hello = 1\nprint(%s.hello, %s.nothere)\n", p, p, p)
+			return p
+		})
+	})
+	frames := []string{"import", "include", "load_mod", "", "a.b"}
+	opt("ReferFrameFiles", func() interface{} {
+		return some(3, func() interface{} {
+			e := map[string]interface{}{}
+			n := frames[r.Intn(len(frames))]
+			if r.Intn(6) > 0 {
+				e["Name"] = n
+			}
+			if r.Intn(3) > 0 {
+				e["type"] = ints[r.Intn(len(ints))]
+			}
+			if r.Intn(3) > 0 {
+				e["SuffixFlag"] = ints[r.Intn(len(ints))]
+			}
+			fmt.Fprintf(&user, "local fr_%d = %s(\"%s\")\nprint(fr_%d, fr_%d.member)\n", user.Len(), n, []string{"f0", "f0.lua", "d1.f1", "nosuch", ""}[r.Intn(5)], user.Len(), user.Len())
+			return e
+		})
+	})
+	derivers := []string{"NewObject", "GetUIObject", "Cast", ""}
+	opt("AnntotateSets", func() interface{} {
+		return some(3, func() interface{} {
+			e := map[string]interface{}{}
+			fn := derivers[r.Intn(len(derivers))]
+			if r.Intn(8) > 0 {
+				e["FuncName"] = fn
+			}
+			if r.Intn(3) > 0 { // omitted or out of range is what nothing validates
+				e["ParamIndex"] = ints[r.Intn(len(ints))]
+			}
+			if r.Intn(2) == 0 {
+				e["SplitFlag"] = ints[r.Intn(len(ints))]
+			}
+			if r.Intn(2) == 0 {
+				e["PrefixStr"] = pick()
+			}
+			if r.Intn(3) == 0 {
+				e["PrefixStrList"] = some(2, func() interface{} { return pick() })
+			}
+			if r.Intn(2) == 0 {
+				e["SuffixStr"] = pick()
+			}
+			args := [][]string{{}, {"\"Thing\""}, {"\"/Game/Mod/BPThing.BPThing_C\""}, {"1", "\"Thing\""}, {"x", "y", "\"a.b/c\""}, {"{}"}}[r.Intn(6)]
+			id := user.Len()
+			fmt.Fprintf(&user, "---@class UThing\n---@field hp number\nlocal obj_%d = %s(%s)\nprint(obj_%d, obj_%d.hp)\nobj_%d:method()\n", id, fn, strings.Join(args, ", "), id, id, id)
+			return e
+		})
+	})
+	user.WriteString("hive.start()\nprint(x, g1)\n")
+	b, _ := json.Marshal(m)
+	return string(b), user.String()
+}
+
 func genC01(seed int64, tier string) *Scenario {
 	r := rand.New(rand.NewSource(seed))
 	sc := &Scenario{Prop: "C01", Seed: seed, Knobs: map[string]interface{}{}}
@@ -103,8 +216,17 @@ func genC01(seed int64, tier string) *Scenario {
 		names = append(names, "main.lua")
 		sc.Files = append(sc.Files, File{Path: "main.lua", Data: Bytes(g.Program(4))})
 	}
-	// configuration file: absent / valid / hostile / garbage
-	switch r.Intn(10) {
+	// configuration file: absent / valid / structured random / hostile / garbage
+	switch r.Intn(12) {
+	case 10, 11:
+		cfg, user := randJSONConfig(r, names)
+		sc.Files = append(sc.Files, File{Path: "luahelper.json", Data: Bytes(cfg)})
+		// a file that uses what the configuration names (annotation-deriving functions, extra
+		// require-like functions, protocol prefixes, ignored modules), so requests on it reach the
+		// code those settings steer
+		names = append(names, "cfguser.lua")
+		sc.Files = append(sc.Files, File{Path: "cfguser.lua", Data: Bytes(user)})
+		sc.Knobs["json"] = "random"
 	case 0, 1:
 		sc.Files = append(sc.Files, File{Path: "luahelper.json", Data: Bytes(c01JSONConfigs[r.Intn(len(c01JSONConfigs))])})
 		sc.Knobs["json"] = "valid"
